@@ -431,6 +431,66 @@ func runCrypto(c *Ctx, r *Reporter) {
 		}
 		r.Check(okM, q(fn)+"#match-gate", p.Rel(fn.Pos()), "match verification runs for every question isMatchQuestion classifies as a match question", "verifyMatch must run on the true edge of isMatchQuestion(): with another gate, questions with an explicit `verification: match` (or the default) would be accepted unverified")
 	}
+	// 6c. nothing is handed out that did not pass the authenticated layer: every successful return of hybridDecrypt
+	// returns the result of the AEAD's Open, and every successful return of hybridEncrypt a value that Seal extended
+	for _, spec := range []struct {
+		fn     *ssa.Function
+		method string
+	}{{dec, "Open"}, {enc, "Seal"}} {
+		var through func(v ssa.Value, depth int, seen map[ssa.Value]bool) bool
+		through = func(v ssa.Value, depth int, seen map[ssa.Value]bool) bool {
+			if depth > 8 || seen[v] {
+				return false
+			}
+			seen[v] = true
+			switch x := v.(type) {
+			case *ssa.Call:
+				if x.Call.IsInvoke() && x.Call.Method.Name() == spec.method {
+					return true
+				}
+				if bi, ok := x.Call.Value.(*ssa.Builtin); ok && bi.Name() == "append" {
+					for _, a := range x.Call.Args {
+						if through(a, depth+1, seen) {
+							return true
+						}
+					}
+				}
+			case *ssa.Extract:
+				return through(x.Tuple, depth+1, seen)
+			case *ssa.Phi:
+				for _, e := range x.Edges {
+					if !through(e, depth+1, seen) {
+						return false
+					}
+				}
+				return len(x.Edges) > 0
+			case *ssa.Slice:
+				return through(x.X, depth+1, seen)
+			}
+			return false
+		}
+		k := 0
+		for _, ret := range returnsOf(spec.fn) {
+			if len(ret.Results) != 2 {
+				continue
+			}
+			if kc, ok := ret.Results[1].(*ssa.Const); !ok || !kc.IsNil() {
+				continue // an error return
+			}
+			k++
+			good := true
+			for _, rv := range resultValues(ret, 0) {
+				if !through(rv, 0, map[ssa.Value]bool{}) {
+					good = false
+				}
+			}
+			r.Check(good, fmt.Sprintf("%s#success-through-%s[%d]", q(spec.fn), spec.method, k), p.Rel(instrPos(ret)), "a successful return hands out what the AEAD's "+spec.method+" produced",
+				"a successful return of "+spec.fn.Name()+" does not come from the AEAD's "+spec.method+": an envelope without (or with a skipped) authenticated part is accepted — a sealed value cut off behind the wrapped key would unseal to the empty answer with any key")
+		}
+		if k == 0 {
+			r.Undecided("%s has no successful return", spec.fn.Name())
+		}
+	}
 	// 7b. the marked set is examined as a whole: the loops of the three choice verifications look the marked set up
 	// by the index of each existing choice, so a letter beyond the last choice is never seen by them. Each of these
 	// functions therefore also ranges over the marked set or measures it (directly or in a callee it hands it to).
